@@ -1,4 +1,5 @@
 //! Suite registry: one module per correspondence suite; `lookup` maps a suite name to its runner.
+pub mod bankops;
 pub mod curve;
 pub mod panic;
 
@@ -6,6 +7,7 @@ pub fn lookup(name: &str) -> Option<fn(&str) -> String> {
     Some(match name {
         "panic" => panic::run,
         "curve" => curve::run,
+        "bankops" => bankops::run,
         _ => return None,
     })
 }
